@@ -160,29 +160,44 @@ def contiguous(mask):
 
 
 def inv_problems(net):
-    """The registry invariant of the property text, checked on the real objects."""
+    """The registry invariant of the property text, checked on the real objects.
+    Returns [(kind, names of the interfaces concerned, text)]."""
     probs = []
     ifs = list(net.interfaces.items())
     for name, i in ifs:
         holders = [nc for nc in net.netconfigs.values() if any(v is i for v in nc.interfaces.values())]
         if len(holders) != 1:
-            probs.append(("membership", f"{name} ({i.ip}) is listed by {len(holders)} registered netconfigs"))
+            probs.append(("membership", {name}, f"{name} ({i.ip}) is listed by {len(holders)} registered netconfigs"))
             continue
         nc = holders[0]
         keys = [k for k, v in nc.interfaces.items() if v is i]
         if keys != [i.ip]:
-            probs.append(("membership", f"{name} ({i.ip}) is listed under {keys} in {nc.net_ip}"))
+            probs.append(("membership", {name}, f"{name} ({i.ip}) is listed under {keys} in {nc.net_ip}"))
         if i.netconfig is not nc:
-            probs.append(("membership", f"{name}.netconfig is not the netconfig listing it"))
+            probs.append(("membership", {name}, f"{name}.netconfig is not the netconfig listing it"))
         network = ipaddress.ip_network(f"{nc.net_ip}/{nc.netmask}", strict=False)
         if ipaddress.ip_address(i.ip) not in network:
-            probs.append(("subnet", f"{name} has {i.ip} outside {network}"))
+            probs.append(("subnet", {name}, f"{name} has {i.ip} outside {network}"))
     seen = {}
     for name, i in ifs:
         if i.ip in seen:
-            probs.append(("duplicate", f"{name} and {seen[i.ip]} both have {i.ip}"))
+            probs.append(("duplicate", {name, seen[i.ip]}, f"{name} and {seen[i.ip]} both have {i.ip}"))
         seen[i.ip] = name
     return probs
+
+
+def shadowed_inputs(spec):
+    """names of the interfaces whose subnet shares its network address with a *later* interface's subnet of a
+    different (shorter) prefix: the input class of the nested-subnet finding"""
+    fl = flat(spec)
+    out = set()
+    for a, (vm, nic, d) in enumerate(fl):
+        na = ipaddress.ip_network(f"{ipstr(d['ip'])}/{ipstr(d['mask'])}", strict=False)
+        for vm2, nic2, d2 in fl[a + 1:]:
+            nb = ipaddress.ip_network(f"{ipstr(d2['ip'])}/{ipstr(d2['mask'])}", strict=False)
+            if na.network_address == nb.network_address and nb.prefixlen < na.prefixlen:
+                out.add(f"{vm}.{nic}")
+    return out
 
 
 def spec_valid(spec):
@@ -237,38 +252,43 @@ def run_net_case(ctx, judge, spec, ops, lines, expect, oracle=True):
     if judged:
         probs = inv_problems(net)
         if probs:
-            orphan = any(not any(i.netconfig is x for x in net.netconfigs.values()) for i in net.interfaces.values())
-            key = "build-nested-subnet-overwrites-netconfig" if orphan else "build-registry-inconsistent"
-            judge.violate(key, "after VMNetwork(params, env): " + "; ".join(w for _, w in probs[:3]), case)
+            # the nested-subnet finding explains exactly: interfaces of a replaced netconfig are listed nowhere
+            orphans = {n for n, i in net.interfaces.items() if not any(i.netconfig is x for x in net.netconfigs.values())}
+            shadowed = shadowed_inputs(spec)
+            explained = orphans and all(kind == "membership" and names <= orphans for kind, names, _ in probs) \
+                and any(o in shadowed for o in orphans)
+            key = "build-nested-subnet-overwrites-netconfig" if explained else "build-registry-inconsistent"
+            judge.violate(key, "after VMNetwork(params, env): " + "; ".join(w for _, _, w in probs[:3]), case)
             judged = False
     # allocation bookkeeping per netconfig object: expected hand-out order from ipaddress
     handed = {}
 
     pools = {}
     for nc in net.netconfigs.values():
-        pools[id(nc)] = [str(ipaddress.IPv4Address(nc.net_ip) + o) for o in sorted(nc.range)]
-        handed[id(nc)] = 0
+        pools[id(nc)] = {str(ipaddress.IPv4Address(nc.net_ip) + o) for o in nc.range}
+        handed[id(nc)] = []
     ifs = list(net.interfaces.values())
 
     def note_alloc(nc, addr, where, k, unseen=False):
+        """every address of the range once, then exhaustion (the order is compared with the model only)"""
         if id(nc) not in pools:
             return
-        n = handed[id(nc)]
+        got = handed[id(nc)]
         pool = pools[id(nc)]
         if unseen:            # an address was taken from the pool but is not observable (proxy variant)
-            handed[id(nc)] = n + 1
+            got.append(None)
             return
         if addr is None:      # exhaustion reported
             ctx.count("alloc.exhausted")
-            if n != len(pool) and valid:
-                judge.violate("alloc-exhausted-early", f"{where}: exhaustion after {n} of {len(pool)} addresses",
+            if len(got) != len(pool) and valid:
+                judge.violate("alloc-exhausted-early", f"{where}: exhaustion after {len(got)} of {len(pool)} addresses",
                               dict(case, upto=k))
             return
         ctx.count("alloc.ok")
-        if valid and (n >= len(pool) or pool[n] != addr):
-            judge.violate("alloc-not-range-order", f"{where}: handed out {addr}, expected "
-                          f"{pool[n] if n < len(pool) else 'exhaustion'}", dict(case, upto=k))
-        handed[id(nc)] = n + 1
+        if valid and (addr not in pool or addr in got):
+            judge.violate("alloc-not-every-address-once", f"{where}: handed out {addr} "
+                          f"({'again' if addr in got else 'not in the range'})", dict(case, upto=k))
+        got.append(addr)
 
     for k, op in enumerate(ops):
         if op[0] == "alloc":
@@ -294,7 +314,8 @@ def run_net_case(ctx, judge, spec, ops, lines, expect, oracle=True):
             snics = [j for j, (vm, _, _) in enumerate(fl) if vm == svm]
             pj = None if p is None else snics[p % len(snics)]
             lines.append(f"reattach {c} {r} {'-' if pj is None else pj}")
-            before = {i.ip for i in ifs}
+            before = {i.ip for j, i in enumerate(ifs) if j != c}
+            taken0 = {(id(x), o) for x in net.netconfigs.values() for o, t in x.range.items() if t}
             target = ifs[r].netconfig
             proxy_eff = pj is not None and pj != r
             ctx.count("reattach.proxy" if proxy_eff else "reattach.plain")
@@ -314,12 +335,24 @@ def run_net_case(ctx, judge, spec, ops, lines, expect, oracle=True):
             if judged:
                 probs = inv_problems(net)
                 if probs:
-                    what = "; ".join(w for _, w in probs[:4])
+                    what = "; ".join(w for _, _, w in probs[:4])
+                    names = list(net.interfaces.keys())
+                    # addresses handed out in this step that were in use: their previous owners are evicted
+                    new_addrs = {str(ipaddress.IPv4Address(x.net_ip) + o) for x in net.netconfigs.values()
+                                 for o, t in x.range.items() if t and (id(x), o) not in taken0}
+                    evicted = {names[j] for j, x in enumerate(ifs) if j != c and x.ip in new_addrs and x.ip in before}
                     if proxy_eff:
+                        # F8 explains exactly: the client is listed nowhere, the reference interface carries the
+                        # proxy interface's address (listed under its old key, outside its subnet, duplicate)
                         listed = ifs[c].netconfig.interfaces.get(ifs[c].ip) is ifs[c]
-                        key = "reattach-proxy-nic-outside-registry" if not listed else "reattach-proxy-registry-inconsistent"
-                    elif ifs[c].ip in before:
-                        key = "reattach-allocates-address-in-use"
+                        mine = {names[c], names[r], names[pj]} | evicted
+                        explained = not listed and all(nm <= mine for _, nm, _ in probs)
+                        key = "reattach-proxy-nic-outside-registry" if explained else "reattach-proxy-registry-inconsistent"
+                    elif evicted:
+                        # the allocator handed out an address in use: the previous owner(s) are evicted/duplicated
+                        mine = {names[c]} | evicted
+                        explained = all(nm <= mine for _, nm, _ in probs)
+                        key = "reattach-allocates-address-in-use" if explained else "reattach-registry-inconsistent"
                     else:
                         key = "reattach-registry-inconsistent"
                     judge.violate(key, f"after reattach_interface({cvm}.{cnic} -> {svm}.{snic}"
@@ -385,7 +418,13 @@ def run_arith(ctx, judge, hosts_per_bits, oracle=True):
                              rng.getrandbits(32) | (size - 1)])
             nat = rng.getrandbits(32)
             case = {"kind": "arith", "bits": b, "ip": ip, "nat": nat}
-            nc = mk_netconfig(ip, mask, 0, 0)
+            try:
+                nc = mk_netconfig(ip, mask, 0, 0)
+            except Exception as e:
+                add(f"netip {ip} {b}", "error:" + errname(e), case, "netip")
+                if oracle:
+                    judge.violate("from-interface-raises", f"from_interface({ipstr(ip)}/{ipstr(mask)}): {e!r}", case)
+                continue
             net_ip = int(ipaddress.IPv4Address(nc.net_ip))
             add(f"netip {ip} {b}", str(net_ip), case, "netip")
             if oracle and net_ip != int(ipaddress.ip_network(f"{ipstr(ip)}/{b}", strict=False).network_address):
@@ -438,7 +477,7 @@ def run_arith(ctx, judge, hosts_per_bits, oracle=True):
                     last = "error:" + errname(e)
             add(f"allocn {ip} {mask} {lo} {hi} {len(want)}", ",".join(map(str, got)) + " then " + last, case, "allocn")
             ctx.count(f"arith.alloc.range-size={min(len(want), 8)}{'+' if len(want) > 8 else ''}")
-            if oracle and (got != want or last != "error:indexError"):
+            if oracle and (sorted(got) != want or last != "error:indexError"):
                 judge.violate("alloc-not-every-address-once", f"range {lo}-{hi} of {nc.net_ip}: handed out "
                               f"{[ipstr(a) for a in got]} then {last}", case)
             ctx.case(case, nontrivial=len(want) > 1)
